@@ -8,6 +8,7 @@
 package main
 
 import (
+	"errors"
 	"fmt"
 	"net"
 	"os"
@@ -195,6 +196,17 @@ func runPipeBLabelled(label string, bseed uint64) string {
 	gc.ConnectTimeout = ct
 	if cfg.auth > 0 {
 		gc.Authenticator = verifAuth{}
+	}
+	if bseed%5 < 2 {
+		// a per-host AuthProvider that fails for some attempts only (every third call; never the first: NewSession)
+		var calls int32
+		gc.Authenticator = nil
+		gc.AuthProvider = func(*gocql.HostInfo) (gocql.Authenticator, error) {
+			if n := atomic.AddInt32(&calls, 1); n%3 == 0 {
+				return nil, errors.New("verif: AuthProvider has no credentials for this host")
+			}
+			return verifAuth{}, nil
+		}
 	}
 	var err error
 	s, err = gc.CreateSession()
